@@ -62,6 +62,10 @@ func (c *FnCtx) callWith(fr *Frame, st *State, cc *ssa.CallCommon, fnv SV, args 
 		}
 		return c.callStatic(fr, st, callee, args, free, "call")
 	}
+	// dynamic call through a function-typed struct field or package variable with a contract
+	if ct := c.eng.funcValueContract(cc.Value); ct != nil {
+		return c.useContract(fr, st, ct, nil, cc.Signature(), ct.Name, args, c.resultType(cc))
+	}
 	// dynamic call through a function value
 	if f, ok := fnv.(Fn); ok && f.F != nil {
 		return c.callStatic(fr, st, f.F, args, f.Free, "closure")
@@ -388,11 +392,15 @@ func (c *FnCtx) useContract(fr *Frame, st *State, ct *FuncContract, callee *ssa.
 	}
 	old := st.clone()
 	// havoc what the callee may modify
-	c.applyModifies(fr, st, pre, ct)
+	c.applyModifiesEnv(fr, st, pre, ct)
 	var res SV
 	if rt != nil {
 		res = c.freshValue(rt, "r$"+name)
 		c.assumeAllocatedSV(st, res, rt)
+	}
+	if ct.Trusted && res != nil && c.inSpec == 0 {
+		c.trustedCalls[name]++
+		c.watchValue(fmt.Sprintf("ret %s#%d", name, c.trustedCalls[name]), res)
 	}
 	post := c.contractEnv(fr, st, old, ct, callee, sig, args)
 	for k, v := range pre.vars {
@@ -433,7 +441,7 @@ func (c *FnCtx) safeEvalBool(e *SpecEnv, cl *Clause) (t Term) {
 }
 
 // applyModifies havocs the locations named in the callee's modifies clause.
-func (c *FnCtx) applyModifies(fr *Frame, st *State, env *SpecEnv, ct *FuncContract) {
+func (c *FnCtx) applyModifiesEnv(fr *Frame, st *State, env *SpecEnv, ct *FuncContract) {
 	if !ct.HasMods {
 		ms := newModSet()
 		ms.all = true
